@@ -41,7 +41,9 @@ def plan(tier, seed):
         shards += plan_graph_shards("B", n_max=6, n_min=6, k=2, parts=16)
     out = []
     for s in shards:
-        for naming in ("identity", "adversarial"):
+        for naming in ("identity", "adversarial", "dunder"):
+            if naming == "dunder" and s["space"] != "A":
+                continue  # modules called __init__ / __main__ (as in every scanned package): the complete space only
             out.append(dict(s, naming=naming, bound=s["bound"] + f" naming={naming}"))
     # architectures whose packages exist only because the hierarchy implies them (module_path below root_path):
     # they are modules like any other and must be found by patterns
